@@ -584,7 +584,7 @@ func (device *AbacoUDPReceiver) start() (err error) {
 				device.data <- queue
 				queue = make([]*packets.Packet, 0, initialQueueCapacity)
 			default:
-				_, _, err := device.conn.ReadFrom(message)
+				n, _, err := device.conn.ReadFrom(message)
 				// If error, was it a timeout?
 				if nerr, ok := err.(net.Error); ok && nerr.Timeout() {
 					device.conn.SetReadDeadline(time.Now().Add(delay))
@@ -595,10 +595,10 @@ func (device *AbacoUDPReceiver) start() (err error) {
 					return
 				}
 
-				if pack, err := packets.ReadPacket(bytes.NewReader(message)); err == nil {
+				// Decode the datagram and nothing else: the buffer is re-used, and what follows the datagram in it
+				// are bytes of earlier packets, which would complete a truncated datagram to a ghost packet.
+				if pack, err := packets.ReadPacket(bytes.NewReader(message[:n])); err == nil {
 					queue = append(queue, pack)
-				} else if err == io.EOF {
-					return
 				} else {
 					// A UDP port receives whatever is sent to it. Drop a datagram that is not a valid packet and keep
 					// receiving: returning here would leave the socket open and ReadAllPackets blocked forever.
